@@ -1741,6 +1741,9 @@ func (m *Machine) ccall(mod *LModule, fr *lframe, in *LInstr) interface{} {
 	if lr, ok := m.libc(callee, cargs); ok {
 		return lr
 	}
+	if lr, ok := m.libcFS(callee, cargs); ok {
+		return lr
+	}
 	if mod.funcs[callee] == nil {
 		unsupported("C: call of unmodelled external function %s", callee)
 	}
